@@ -815,6 +815,11 @@ func (w *World) binlogPos(r *Server) (string, int64) {
 	if idx > len(src.Binlog) {
 		idx = len(src.Binlog)
 	}
+	// the position survives a restart or a reconnect (master info repository, auto-position): it
+	// is where the first event the replica does not have yet begins
+	for idx < len(src.Binlog) && (r.Executed.Has(src.Binlog[idx].G) || r.Retrieved.Has(src.Binlog[idx].G)) {
+		idx++
+	}
 	n := w.binlogTxnsPerFile
 	fi := idx / n
 	if idx > 0 && idx%n == 0 && idx == len(src.Binlog) {
